@@ -227,7 +227,7 @@ def r181(ctx):
                     near.append((r, sorted(a)))
                     break
         truthy = [n for n in near if any(x.startswith("truthy(CAP)") or x.startswith("truthy(LMO)") for x in n[1])] if main in ("CAP", "LMO") else []
-        if truthy and main in ("CAP",):
+        if truthy and main in ("CAP", "LMO"):
             ctx.bad(rid, truthy[0][0],
                     f"clause '{name}' ({what}) tests whether the numeric option is set by truthiness: a value of 0.0 skips the check (the sibling option lambda_minus_one is tested with `is not False`)",
                     construct=f"{name}: " + " and ".join(truthy[0][1]))
